@@ -156,7 +156,7 @@ def rule_R2(ctx, f):
             be = next((b.bool_edges(bi) for bi in sorted(b.reach(cs[0].bb)) if b.bool_edges(bi) and b.bool_edges(bi)[0] == cs[0].result_term()), None)
         if be and be[0] == cs[0].result_term():
             ok = rejecting(b, be[1]) and on_every_iteration(cs[0].bb)
-            errs = [err_variant(b, x) for x in b.reach(be[1]) if err_variant(b, x)]
+            errs = [err_variant(b, x) for x in sorted(b.reach_ps(be[1])) if err_variant(b, x)]
             ok = ok and errs == ["AlreadyReg"]
     ctx.ob(rid, "register|check-a-id", ok, "every descriptor id must be tested against self.desc_ids and a hit must return AlreadyReg", site=cs[0].span if cs else b.raw["span"]["at"])
     # (b)
@@ -415,7 +415,7 @@ def rule_R3(ctx, f):
     ctx.ob(rid, "register|entry-match", vac is not None and occ is not None, "the test must distinguish a registered collector id from a new one", site=ents[0].span)
     if vac is None or occ is None:
         return
-    errs = [err_variant(b, x) for x in b.reach(occ) if err_variant(b, x)]
+    errs = [err_variant(b, x) for x in sorted(b.reach_ps(occ)) if err_variant(b, x)]
     ctx.ob(rid, "register|occupied", rejecting(b, occ) and errs == ["AlreadyReg"], "an occupied collector id must return AlreadyReg", site=ents[0].span)
     sites = mutation_sites(b)
     by_field = {}
